@@ -151,6 +151,13 @@ class FakeSocket:
         self.env.closed = True
 
 
+class SockStub:
+    """What the simulator keeps of a socket whose handler is gone: its event log."""
+
+    def __init__(self, log):
+        self.log = log
+
+
 class DummyFile:
     def __init__(self, n):
         self.n = n
@@ -219,18 +226,45 @@ class FlowRec:
         self.connect_aborted = False
 
 
+class BrokenStream:
+    """A diagnostics stream that is gone (the terminal closed, the pipe's reader died): every write fails."""
+
+    def write(self, s):
+        raise IOError(errno.EIO, 'scripted: stderr is gone')
+
+    def flush(self):
+        raise IOError(errno.EIO, 'scripted: stderr is gone')
+
+
+class RecordingStream:
+    def __init__(self):
+        self.written = []
+
+    def write(self, s):
+        self.written.append(s)
+        return len(s)
+
+    def flush(self):
+        pass
+
+
 class RealTunnel:
-    def __init__(self, maxchan=65535, bufsize=32768, chani=0, extra_occ=()):
+    def __init__(self, maxchan=65535, bufsize=32768, chani=0, extra_occ=(), verbose=0):
+        """verbose: the verbosity both processes run at (0-3); 10 + v = verbosity v with a stderr that is gone.
+        Whatever the verbosity and whatever happens to the diagnostics, the behaviour must be the same, and nothing but
+        the Mux may write to the process's stdout (in the server that is the tunnel itself)."""
         import sshuttle.ssnet as ssnet
         import sshuttle.client as client
         import sshuttle.server as server
         import sshuttle.helpers as helpers
         self.ssnet, self.client, self.server, self.helpers = ssnet, client, server, helpers
-        helpers.verbose = 0
         self.saved = dict(max=ssnet.MAX_CHANNEL, buf=ssnet.LATENCY_BUFFER_SIZE, socket=ssnet.socket,
                           nbio=ssnet.set_non_blocking_io, select=ssnet.select, ctime=client.time.time,
-                          stderr=sys.stderr)
-        sys.stderr = io.StringIO()
+                          stderr=sys.stderr, stdout=sys.stdout, verbose=helpers.verbose)
+        helpers.verbose = verbose % 10
+        sys.stderr = BrokenStream() if verbose >= 10 else io.StringIO()
+        self.stdout_rec = RecordingStream()
+        sys.stdout = self.stdout_rec
         ssnet.MAX_CHANNEL = maxchan
         ssnet.LATENCY_BUFFER_SIZE = bufsize
         ssnet.set_non_blocking_io = lambda fd: None
@@ -316,6 +350,8 @@ class RealTunnel:
         ssnet.select = self.saved['select']
         client.time.time = self.saved['ctime']
         sys.stderr = self.saved['stderr']
+        sys.stdout = self.saved['stdout']
+        self.helpers.verbose = self.saved['verbose']
         client.dnsreqs.clear()
         client.udp_by_src.clear()
 
@@ -422,14 +458,35 @@ class RealTunnel:
 
     def _reap(self):
         """Object lifetime as in CPython: a handler that left the handler list is unreferenced, so its
-        wrappers are finalised at once (their __del__ runs).  The simulator must not keep them alive."""
+        wrappers are finalised at once (their __del__ runs) and its socket object is released — which is what closes
+        the descriptor.  The simulator must not keep them alive: once a handler is gone it keeps only a weak
+        reference to that handler's socket (and the socket's event log)."""
         import gc
+        import weakref
+        self.listener.next = None
         for f in self.flows:
             if f.cproxy is not None and f.cproxy not in self.chandlers:
                 f.cproxy = None
             if f.sproxy is not None and f.sproxy not in self.shandlers:
                 f.sproxy = None
+            for pa, sa, ra in (('cproxy', 'app_sock', 'app_ref'), ('sproxy', 'dst_sock', 'dst_ref')):
+                sock = getattr(f, sa)
+                if getattr(f, pa) is None and isinstance(sock, FakeSocket) and (pa == 'cproxy' or f.s_ever):
+                    setattr(f, ra, weakref.ref(sock))
+                    setattr(f, sa, SockStub(sock.log))
+                sock = None
         gc.collect()
+
+    def unreleased(self):
+        """(flow index, 'app'|'dst') of sockets whose handler is gone but which something still references: the
+        descriptor stays open, the endpoint is left hanging."""
+        out = []
+        for i, f in enumerate(self.flows):
+            for ra, name in (('app_ref', 'app'), ('dst_ref', 'dst')):
+                r = getattr(f, ra, None)
+                if r is not None and r() is not None:
+                    out.append((i, name))
+        return out
 
     def rm(self, end):
         hl = self.chandlers if end == 'c' else self.shandlers
@@ -665,9 +722,9 @@ def canon_model_line(line):
 class Script:
     """Runs a list of step tuples on the real tunnel, producing model input + real output lines."""
 
-    def __init__(self, maxchan=65535, bufsize=32768, chani=0, extra_occ=()):
-        self.cfg = (maxchan, bufsize, chani, tuple(extra_occ))
-        self.t = RealTunnel(maxchan, bufsize, chani, extra_occ)
+    def __init__(self, maxchan=65535, bufsize=32768, chani=0, extra_occ=(), verbose=0):
+        self.cfg = (maxchan, bufsize, chani, tuple(extra_occ), verbose)
+        self.t = RealTunnel(maxchan, bufsize, chani, extra_occ, verbose)
         self.ins = ['init %d %d %d %s' % (maxchan, bufsize, chani, ' '.join(str(c) for c in extra_occ))]
         self.ins[0] = self.ins[0].rstrip()
         self.outs = [self.t.show()]
